@@ -19,6 +19,7 @@ import (
 	"regexp"
 	"strconv"
 	"strings"
+	"syscall"
 	"time"
 
 	"github.com/snapcore/snapd/osutil"
@@ -38,12 +39,17 @@ type call struct {
 	Mtime  bool     `json:"mtime,omitempty"`
 	Src    string   `json:"src,omitempty"`  // rename: source path; commitas: the name given to NewAtomicFile
 	Data   string   `json:"data,omitempty"` // symlink text
+	Mid    string   `json:"mid,omitempty"`  // newcommit: "rename-dir" = the target's directory is renamed away before Commit
 }
 
 type in struct {
 	Files  []file `json:"files"`
 	Target string `json:"target"`
 	Calls  []call `json:"calls"`
+	// error-path family: the calls run as uid/gid 65534 in directories owned by it; DirMode (if non-zero) is the mode
+	// of the target's directory d0 (0300 = writable and searchable but not openable for reading, ...)
+	Unpriv  bool `json:"unpriv,omitempty"`
+	DirMode int  `json:"dir_mode,omitempty"`
 }
 
 // ------------------------------------------------------------------------------------------------ child
@@ -75,14 +81,37 @@ func child(path string) int {
 		fmt.Fprintln(os.Stderr, "child:", err)
 		return 3
 	}
-	rc := 0
+	// phase 1 (as the invoking user): directories and pre-existing files of every case
 	for k, i := range ins {
 		dir := "case-" + strconv.Itoa(k)
 		if err := os.Mkdir(dir, 0755); err != nil {
 			fmt.Fprintln(os.Stderr, "child:", err)
 			return 3
 		}
-		if err := os.Chdir(dir); err != nil {
+		if err := setupOne(dir, i); err != nil {
+			fmt.Fprintln(os.Stderr, "child: setup:", err)
+			return 3
+		}
+	}
+	// the error-path family runs without privileges
+	if len(ins) > 0 && ins[0].Unpriv {
+		if err := syscall.Setgroups([]int{}); err != nil {
+			fmt.Fprintln(os.Stderr, "child: setgroups:", err)
+			return 3
+		}
+		if err := syscall.Setgid(65534); err != nil {
+			fmt.Fprintln(os.Stderr, "child: setgid:", err)
+			return 3
+		}
+		if err := syscall.Setuid(65534); err != nil {
+			fmt.Fprintln(os.Stderr, "child: setuid:", err)
+			return 3
+		}
+	}
+	// phase 2: the calls
+	rc := 0
+	for k, i := range ins {
+		if err := os.Chdir("case-" + strconv.Itoa(k)); err != nil {
 			fmt.Fprintln(os.Stderr, "child:", err)
 			return 3
 		}
@@ -97,19 +126,33 @@ func child(path string) int {
 	return rc
 }
 
-func childOne(i in) int {
+func setupOne(dir string, i in) error {
 	for _, d := range []string{"d0", "d1"} {
-		if err := os.Mkdir(d, 0755); err != nil {
-			fmt.Fprintln(os.Stderr, "child:", err)
-			return 3
+		if err := os.Mkdir(filepath.Join(dir, d), 0755); err != nil {
+			return err
 		}
 	}
 	for _, f := range i.Files {
-		if err := os.WriteFile(f.Path, []byte(f.Data), 0644); err != nil {
-			fmt.Fprintln(os.Stderr, "child:", err)
-			return 3
+		if err := os.WriteFile(filepath.Join(dir, f.Path), []byte(f.Data), 0644); err != nil {
+			return err
 		}
 	}
+	if i.Unpriv {
+		for _, d := range []string{dir, filepath.Join(dir, "d0"), filepath.Join(dir, "d1")} {
+			if err := os.Chown(d, 65534, 65534); err != nil {
+				return err
+			}
+		}
+	}
+	if i.DirMode != 0 {
+		if err := os.Chmod(filepath.Join(dir, "d0"), os.FileMode(i.DirMode)); err != nil {
+			return err
+		}
+	}
+	return nil
+}
+
+func childOne(i in) int {
 	rc := 0
 	uid, gid := sys.UserID(os.Getuid()), sys.GroupID(os.Getgid())
 	for k, c := range i.Calls {
@@ -155,6 +198,12 @@ func childOne(i in) int {
 			if c.Mtime {
 				aw.SetModTime(time.Unix(1000000000, 0))
 			}
+			if c.Mid == "rename-dir" {
+				if err = os.Rename(filepath.Dir(i.Target), filepath.Dir(i.Target)+"-moved"); err != nil {
+					fmt.Fprintln(os.Stderr, "child: mid action:", err)
+					return 3
+				}
+			}
 			switch c.Kind {
 			case "newcommit":
 				err = aw.Commit()
@@ -162,6 +211,9 @@ func childOne(i in) int {
 				err = aw.CommitAs(i.Target)
 			case "cancel":
 				err = aw.Cancel()
+			}
+			if err != nil && c.Kind != "cancel" {
+				aw.Cancel() // what AtomicWriteChown's deferred Cancel does
 			}
 		case "rename":
 			err = osutil.AtomicRename(c.Src, i.Target)
@@ -171,8 +223,11 @@ func childOne(i in) int {
 			err = fmt.Errorf("unknown call kind %q", c.Kind)
 		}
 		if err != nil {
-			fmt.Fprintf(os.Stderr, "child: call %d (%s): %v\n", k, c.Kind, err)
-			rc = 4
+			// an error return is an outcome, not a failure of the driver: the caller is then entitled to the OLD content
+			mark("ERR")
+			if c.Mid != "" || c.Kind == "newcommit" || c.Kind == "commitas" {
+				// callers of NewAtomicFile clean up themselves (AtomicWriteChown defers Cancel)
+			}
 		}
 	}
 	mark("END")
@@ -286,6 +341,7 @@ type parser struct {
 	started bool
 	ended   bool
 	failed  bool
+	errs    map[int]bool // call index -> the call returned an error
 }
 
 func (p *parser) name(path string) ([2]int, bool) {
@@ -341,6 +397,11 @@ func (p *parser) syscall(name string, args []string, ret int, retErrno string, r
 				p.ended = true
 			case s == "VERIF-FAILED":
 				p.failed = true
+			case s == "VERIF-ERR":
+				if p.errs == nil {
+					p.errs = map[int]bool{}
+				}
+				p.errs[len(p.steps)-1] = true
 			}
 		}
 		return
@@ -613,7 +674,7 @@ func execCase(i in, p *parser) vh.Out {
 	var bad []string
 	bad = append(bad, p.bad...)
 	if p.failed {
-		bad = append(bad, "a call returned an error")
+		bad = append(bad, "the child could not set the case up")
 	}
 	if !p.ended {
 		bad = append(bad, "no end marker")
@@ -663,37 +724,83 @@ func execCase(i in, p *parser) vh.Out {
 		}
 		var acall string
 		tgt := filepath.Clean(i.Target)
-		switch c.Kind {
-		case "writefile":
-			data := strings.Join(chunks, "")
-			one := []string{}
-			if data != "" {
-				one = append(one, vh.CoqBytes(data)) // bytes.Reader.WriteTo: a single write, none for empty data
+		erred := p.errs[k]
+		hasOp := func(kind string) bool {
+			for _, o := range ops {
+				if o.K == kind {
+					return true
+				}
 			}
-			acall = fmt.Sprintf("AWrite %s false %s %s %s", vh.CoqBool(c.Chown), coqName(firstOf("Creat")), coqName(tname), vh.CoqList(one))
-			content[tgt] = &data
-			publishes = true
-		case "write", "newcommit", "commitas":
-			data := strings.Join(chunks, "")
-			acall = fmt.Sprintf("AWrite %s %s %s %s %s", vh.CoqBool(c.Chown), vh.CoqBool(c.Mtime && c.Kind != "write"), coqName(firstOf("Creat")), coqName(tname), vh.CoqList(chunksCoq))
-			content[tgt] = &data
-			publishes = true
-		case "cancel":
-			acall = fmt.Sprintf("ACancel %s %s", coqName(firstOf("Creat")), vh.CoqList(chunksCoq))
-		case "rename":
-			src, _ := p.name(c.Src)
-			acall = fmt.Sprintf("ARename %s %s", coqName(src), coqName(tname))
-			content[tgt] = content[filepath.Clean(c.Src)]
-			delete(content, filepath.Clean(c.Src))
-			publishes = true
-		case "symlink":
-			acall = fmt.Sprintf("ASymlink %s %s %s", coqName(firstOf("Symlink")), coqName(tname), vh.CoqBytes(c.Data))
-			d := c.Data
-			content[tgt] = &d
-			publishes = true
-		default:
-			acall = "ARename (9, 999) (9, 999)"
-			bad = append(bad, "unknown call kind")
+			return false
+		}
+		switch {
+		case erred && (c.Kind == "writefile" || c.Kind == "write" || c.Kind == "newcommit" || c.Kind == "commitas"):
+			// refused: the caller keeps the old content. Predicted operation lists: nothing if the temp file could not
+			// be created; create, write, clean up if the directory could not be opened for the dir-sync
+			switch {
+			case !hasOp("Creat"):
+				acall = "ANothing"
+			case i.DirMode == 0300 && c.Mid == "":
+				cc := chunksCoq
+				if c.Kind == "writefile" {
+					cc = nil
+					if d := strings.Join(chunks, ""); d != "" {
+						cc = []string{vh.CoqBytes(d)}
+					}
+				}
+				acall = fmt.Sprintf("AWriteFail %s %s %s %s %s COpenDir", vh.CoqBool(c.Chown), vh.CoqBool(c.Mtime && c.Kind != "write" && c.Kind != "writefile"),
+					coqName(firstOf("Creat")), coqName(tname), vh.CoqList(cc))
+			default:
+				acall = "AOther"
+			}
+		case erred && c.Kind == "rename":
+			acall = "AOther"
+			if len(ops) == 0 {
+				acall = "ANothing"
+			}
+		case erred && c.Kind == "symlink":
+			acall = "ANothing"
+			if hasOp("Symlink") {
+				acall = fmt.Sprintf("ASymlinkFail %s %s", coqName(firstOf("Symlink")), vh.CoqBytes(c.Data))
+			}
+		case erred:
+			acall = "AOther"
+		}
+		if acall != "" {
+			// fall through to the common tail with the content unchanged
+		} else {
+			switch c.Kind {
+			case "writefile":
+				data := strings.Join(chunks, "")
+				one := []string{}
+				if data != "" {
+					one = append(one, vh.CoqBytes(data)) // bytes.Reader.WriteTo: a single write, none for empty data
+				}
+				acall = fmt.Sprintf("AWrite %s false %s %s %s", vh.CoqBool(c.Chown), coqName(firstOf("Creat")), coqName(tname), vh.CoqList(one))
+				content[tgt] = &data
+				publishes = true
+			case "write", "newcommit", "commitas":
+				data := strings.Join(chunks, "")
+				acall = fmt.Sprintf("AWrite %s %s %s %s %s", vh.CoqBool(c.Chown), vh.CoqBool(c.Mtime && c.Kind != "write"), coqName(firstOf("Creat")), coqName(tname), vh.CoqList(chunksCoq))
+				content[tgt] = &data
+				publishes = true
+			case "cancel":
+				acall = fmt.Sprintf("ACancel %s %s", coqName(firstOf("Creat")), vh.CoqList(chunksCoq))
+			case "rename":
+				src, _ := p.name(c.Src)
+				acall = fmt.Sprintf("ARename %s %s", coqName(src), coqName(tname))
+				content[tgt] = content[filepath.Clean(c.Src)]
+				delete(content, filepath.Clean(c.Src))
+				publishes = true
+			case "symlink":
+				acall = fmt.Sprintf("ASymlink %s %s %s", coqName(firstOf("Symlink")), coqName(tname), vh.CoqBytes(c.Data))
+				d := c.Data
+				content[tgt] = &d
+				publishes = true
+			default:
+				acall = "ARename (9, 999) (9, 999)"
+				bad = append(bad, "unknown call kind")
+			}
 		}
 		after := "None"
 		var afterObs interface{}
@@ -708,7 +815,7 @@ func execCase(i in, p *parser) vh.Out {
 			opsObs = append(opsObs, o.coq())
 		}
 		stepsCoq = append(stepsCoq, "("+acall+", "+vh.CoqList(opsCoq)+", "+after+")")
-		obsSteps = append(obsSteps, map[string]interface{}{"call": acall, "ops": opsObs, "after": afterObs})
+		obsSteps = append(obsSteps, map[string]interface{}{"call": acall, "ops": opsObs, "after": afterObs, "returned_error": erred})
 	}
 	coq := fmt.Sprintf("(Case %s %s %s %s)", vh.CoqList(filesCoq), coqName(tname), vh.CoqList(stepsCoq), vh.CoqBool(len(bad) == 0))
 	tags := []string{fmt.Sprintf("calls-%d", len(i.Calls))}
@@ -727,14 +834,20 @@ func execCase(i in, p *parser) vh.Out {
 	if len(bad) > 0 {
 		tags = append(tags, "unparsed")
 	}
-	return vh.Out{Observed: map[string]interface{}{"steps": obsSteps, "unparsed": bad}, Coq: coq, NonTrivial: publishes && len(bad) == 0, Tags: tags}
+	if i.Unpriv {
+		tags = append(tags, fmt.Sprintf("unpriv-dir-%04o", i.DirMode))
+	}
+	if len(p.errs) > 0 {
+		tags = append(tags, "error-return")
+	}
+	return vh.Out{Observed: map[string]interface{}{"steps": obsSteps, "unparsed": bad}, Coq: coq, NonTrivial: (publishes || len(p.errs) > 0) && len(bad) == 0, Tags: tags}
 }
 
 // ------------------------------------------------------------------------------------------------ generation
 
 func gen(r *vh.Rand, tier string, n int) []in {
 	if n <= 0 {
-		n = 120
+		n = 190
 	}
 	var out []in
 	target := "d0/state.json"
@@ -767,6 +880,31 @@ func gen(r *vh.Rand, tier string, n int) []in {
 		out = append(out, mk(old, []call{{Kind: "rename", Src: "d0/./src"}}, file{"d0/src", ""}))
 		out = append(out, mk(old, []call{{Kind: "symlink", Data: "../somewhere/else"}}))
 		out = append(out, mk(old, []call{{Kind: "symlink", Data: "x"}}))
+	}
+	// error paths: unprivileged writer, target directory writable+searchable but not openable (0300), search only (0100),
+	// read+search only (0500), normal (0700, control); and the directory renamed away between the writes and Commit
+	for _, mode := range []int{0300, 0100, 0500, 0700} {
+		for _, old := range olds {
+			u := func(calls []call, extra ...file) in {
+				x := mk(old, calls, extra...)
+				x.Unpriv, x.DirMode = true, mode
+				return x
+			}
+			out = append(out, u([]call{{Kind: "writefile", Chunks: []string{"new-content"}}}))
+			out = append(out, u([]call{{Kind: "writefile", Chunks: []string{"abc"}, Chown: true}}))
+			out = append(out, u([]call{{Kind: "write", Chunks: []string{"new-", "content", "!"}}}))
+			out = append(out, u([]call{{Kind: "newcommit", Chunks: []string{"x", "y"}, Chown: true, Mtime: true}}))
+			out = append(out, u([]call{{Kind: "commitas", Chunks: []string{"x"}, Src: "d0/other-name"}}))
+			out = append(out, u([]call{{Kind: "rename", Src: "d1/src"}}, file{"d1/src", "from-other-dir"}))
+			out = append(out, u([]call{{Kind: "symlink", Data: "../somewhere"}}))
+			out = append(out, u([]call{{Kind: "writefile", Chunks: []string{"first"}}, {Kind: "writefile", Chunks: []string{"second"}}}))
+		}
+	}
+	for _, old := range olds {
+		x := mk(old, []call{{Kind: "newcommit", Chunks: []string{"data"}, Mid: "rename-dir"}})
+		x.Unpriv, x.DirMode = true, 0700
+		out = append(out, x)
+		out = append(out, mk(old, []call{{Kind: "newcommit", Chunks: []string{"data"}, Mtime: true, Mid: "rename-dir"}}))
 	}
 	// random sequences of 1..4 calls on the same target
 	alpha := "abcdefghijklmnopqrstuvwxyz0123456789{}\":, \n\x00"
@@ -833,17 +971,33 @@ func main() {
 	defer f.Close()
 	enc := json.NewEncoder(f)
 	const batch = 50
-	for lo := 0; lo < len(inputs); lo += batch {
-		hi := lo + batch
-		if hi > len(inputs) {
-			hi = len(inputs)
-		}
-		ps := runBatch(inputs[lo:hi])
-		for k := lo; k < hi; k++ {
-			o := execCase(inputs[k], ps[k-lo])
-			if err := enc.Encode(vh.Case{ID: k, Input: inputs[k], Observed: o.Observed, Coq: o.Coq, NonTrivial: o.NonTrivial, Tags: o.Tags}); err != nil {
-				panic(err)
+	outs := make([]vh.Out, len(inputs))
+	for _, unpriv := range []bool{false, true} {
+		var idx []int
+		for k := range inputs {
+			if inputs[k].Unpriv == unpriv {
+				idx = append(idx, k)
 			}
+		}
+		for lo := 0; lo < len(idx); lo += batch {
+			hi := lo + batch
+			if hi > len(idx) {
+				hi = len(idx)
+			}
+			var part []in
+			for _, k := range idx[lo:hi] {
+				part = append(part, inputs[k])
+			}
+			ps := runBatch(part)
+			for j, k := range idx[lo:hi] {
+				outs[k] = execCase(inputs[k], ps[j])
+			}
+		}
+	}
+	for k := range inputs {
+		o := outs[k]
+		if err := enc.Encode(vh.Case{ID: k, Input: inputs[k], Observed: o.Observed, Coq: o.Coq, NonTrivial: o.NonTrivial, Tags: o.Tags}); err != nil {
+			panic(err)
 		}
 	}
 	fmt.Fprintf(os.Stderr, "vh: %d cases written\n", len(inputs))
